@@ -280,7 +280,7 @@ RULE_PU1 = ('PU1: the state-vector / density-matrix primitives never write into 
             'is a parameter, or a name that may alias a parameter (plain binding, reshape / view / ravel / asarray / astype(copy=False) / slicing), is '
             'reported. A fresh object comes from .copy(), np.array(..), astype without copy=False, arithmetic, zeros_like.')
 
-_VIEW_METHODS = {'reshape', 'view', 'ravel', 'squeeze', 'transpose', 'swapaxes', 'real', 'imag', 'T'}
+_VIEW_METHODS = {'reshape', 'view', 'ravel', 'squeeze', 'transpose', 'swapaxes', 'real', 'imag', 'T', 'conj', 'conjugate'}     # ndarray.conj() of a real array is the array itself
 _FRESH_CALLS = {'copy', 'array', 'zeros', 'zeros_like', 'ones', 'ones_like', 'empty', 'empty_like', 'eye', 'concatenate', 'stack', 'kron', 'einsum', 'dot', 'matmul',
                 'tensordot', 'clone'}
 
@@ -371,7 +371,8 @@ def pu1(proj, rep, modules):
                     tgt = s.targets[0]
                 elif isinstance(s, ast.AugAssign) and not isinstance(s.target, ast.Name):
                     tgt = s.target
-                elif isinstance(s, ast.AugAssign) and isinstance(s.target, ast.Name) and _array_evidence(fi, s.target.id):
+                elif isinstance(s, ast.AugAssign) and isinstance(s.target, ast.Name) and (
+                        _array_evidence(fi, s.target.id) or (s.target.id not in params and aliases.get(s.target.id) is not None)):
                     tgt = s.target          # `x op= v` on a bare name is in place only for arrays: reported when the function itself treats x as an array
                 if tgt is None:
                     continue
